@@ -37,9 +37,9 @@ from ..uflsem import T, as_T
 MOD = "ufl.algorithms.check_arities"
 
 
-def argument(name, number, shape=()):
+def argument(name, number, shape=(), part=None):
     t = terminal(name, shape, "Argument")
-    t.tags.update(number=lambda: number, part=lambda: None, _number=number, _part=None)
+    t.tags.update(number=lambda: number, part=lambda: part, _number=number, _part=part)
     return t
 
 
@@ -143,6 +143,17 @@ def family():
             continue
         add(f"as_vector([{d1}, {d2}])[i]*F[i]", mult(idx(uflmodel.m_list_tensor(b1, b2), i), idx(fv, i)), (v, u))
         add(f"as_vector([[{d1}, 0], [0, {d2}]])[i,j]*F[i]*F[j]   (nested list)", mult(mult(idx(uflmodel.m_list_tensor(uflmodel.m_list_tensor(b1, zero), uflmodel.m_list_tensor(zero, b2)), i, j), idx(fv, i)), idx(fv, j)), (v, u))
+    # block systems: arguments with the same number and different parts are ONE argument of the form
+    va, vb = argument("v0a", 0, (), 0), argument("v0b", 0, (), 1)
+    ua, ub = argument("v1a", 1, (), 0), argument("v1b", 1, (), 1)
+    add("f*v0a + g*v0b   (two blocks of the test function)", S(P(f, va), P(g, vb)), (va, vb))
+    add("f*v0a*v0b   (quadratic in the test function)", P(f, P(va, vb)), (va, vb))
+    add("v0b*(g*v0a)", P(vb, P(g, va)), (va, vb))
+    add("as_vector([v0a,0])[0]*as_vector([0,v0b])[1]", P(idx(uflmodel.m_list_tensor(va, zero), 0), idx(uflmodel.m_list_tensor(zero, vb), 1)), (va, vb))
+    add("conditional(f<g, v0a, 0)*v0b", P(uflmodel.m_conditional(c, va, zero), vb), (va, vb))
+    add("v0a*v1b + v0b*v1a", S(P(va, ub), P(vb, ua)), (va, vb, ua, ub))
+    add("(v0a*v1b)*(v0b*v1a)   (quadratic in both)", P(P(va, ub), P(vb, ua)), (va, vb, ua, ub))
+    add("v0a*v1a + v0b*v1b", S(P(va, ua), P(vb, ub)), (va, vb, ua, ub))
     # rank 2
     add("v0*v1", P(v, u), (v, u))
     add("conj(v0)*v1", P(Conj(v), u), (v, u))
@@ -171,9 +182,12 @@ def family():
     return E
 
 
-def is_linear_in(e: T, a: T, rng, antilinear=False, real_mode=False):
-    """exact additivity + homogeneity of the lifted term in the symbols of argument a"""
-    base = set(arg_symbols(a))
+def is_linear_in(e: T, a, rng, antilinear=False, real_mode=False):
+    """exact additivity + homogeneity of the lifted term in the symbols of argument a (a list of arguments: the
+    parts of one argument number, varied jointly)"""
+    parts = a if isinstance(a, (list, tuple)) else [a]
+    base = set(s_ for p in parts for s_ in arg_symbols(p))
+    a = parts[0]
     names = sorted({s_ for ex in e.data.values() for s_ in sym.symbols_of(ex) if s_.split("@")[0] in base})
     t1 = {n: sym.sym(n + "'") for n in names}
     t2 = {n: sym.sym(n + "''") for n in names}
@@ -246,12 +260,16 @@ def run(ctx) -> Report:
                 continue
             counts["accepted"] += 1
             bad = None
+            by_number = {}
             for a in args:
-                if not depends_on(e, a):
+                by_number.setdefault(a.tags["_number"], []).append(a)
+            for number, group in sorted(by_number.items()):
+                a = group[0]
+                if not any(depends_on(e, p) for p in group):
                     bad = f"does not contain the form argument {a.name}"
                     break
-                anti = complex_mode and a.tags["_number"] == 0
-                ok, why = is_linear_in(e, a, ctx.rng, antilinear=anti, real_mode=not complex_mode)
+                anti = complex_mode and number == 0
+                ok, why = is_linear_in(e, group, ctx.rng, antilinear=anti, real_mode=not complex_mode)
                 if not ok:
                     bad = why + (" (complex mode requires antilinearity in the test function)" if anti else "")
                     break
@@ -289,7 +307,7 @@ def run(ctx) -> Report:
         "lifted term was shown additive and (anti)homogeneous in each form argument and to contain exactly the form's arguments "
         f"({counts['accepted']} accepted, {counts['rejected']} rejected); FormData.__init__ must run the check on every path."
     )
-    rep.assumptions = ["compound tensor operators (inner/dot/outer) never reach the arity check as run by compute_form_data (they are lowered first): their handlers are not part of the claim", "soundness direction only (accepted => multilinear); rejecting a multilinear integrand is not a violation of the property", "finite integrand family; argument parts not exercised"]
+    rep.assumptions = ["compound tensor operators (inner/dot/outer) never reach the arity check as run by compute_form_data (they are lowered first): their handlers are not part of the claim", "soundness direction only (accepted => multilinear); rejecting a multilinear integrand is not a violation of the property", "finite integrand family"]
     from ..memokey import memo_rule
 
     memo_rule(ctx, rep, "C14-key", ['ufl.algorithms.check_arities'])
